@@ -38,6 +38,9 @@ class Boom(Exception):
 
 TEXTS = ['', 'x', 'Not here', 'café ☃', '<&>"\'', 'a\nb\tc', 'éè', ']]>', '\U0001f600 ok',
          'line1\r\nline2', '{"json": 1}', 'x' * 40]
+TEXTS += ['ctl\x0b\x01x', 'cr\rlf', 'tab\there', 'a&amp;b &lt; ]]> &#38;']
+# lone surrogates: only in the dedicated generator (surrogate_cases)
+SURR_TEXTS = ['lone \ud800 surrogate', '\udfff', 'x\udc00\ud800y']
 HREFS = ['http://example.com/help', 'http://example.com/a b?q=é', '/rel/path', 'http://x/<y>&z=1']
 ACCEPTS = [None, '*/*', 'application/json', 'text/xml', 'application/xml', 'application/xml;q=0.9, application/json',
            'application/json;q=0.1, application/xml', 'text/html', 'application/vnd.x+json', 'application/vnd.x+xml',
@@ -88,7 +91,7 @@ def rnd_opt(rng, xs, p_none=0.4):
 def gen_herr_args(rng):
     return {'status': rng.choice(STATUSES), 'title': rnd_opt(rng, TEXTS), 'description': rnd_opt(rng, TEXTS),
             'headers': rng.choice(HEADER_SETS), 'href': rnd_opt(rng, HREFS, 0.6), 'href_text': rnd_opt(rng, TEXTS, 0.6),
-            'code': rnd_opt(rng, [0, 7, -3, 10 ** 12], 0.6)}
+            'code': rnd_opt(rng, [0, 7, -3, 10 ** 12, 'E42', '', 'cöde <1>'], 0.6)}
 
 
 def gen_hstat_args(rng):
@@ -181,7 +184,8 @@ def wire_herr(e):
     if e.link is not None:
         link = [[e.link['text'], e.link['href'], e.link['rel']]]
     return [e.status_code, e.title, [] if e.description is None else [e.description],
-            [] if e.code is None else [e.code], link, pairs_of(e.headers)]
+            [] if e.code is None else [[0, e.code] if isinstance(e.code, int) else [1, e.code]], link,
+            pairs_of(e.headers)]
 
 
 def wire_hstat(s):
@@ -517,7 +521,7 @@ def dict_of_errdict(d):
     if d[1]:
         out['description'] = common.wstr(d[1][0])
     if d[2]:
-        out['code'] = d[2][0]
+        out['code'] = d[2][0][1] if d[2][0][0] == 0 else common.wstr(d[2][0][1])
     if d[3]:
         t, h, r = d[3][0]
         out['link'] = {'text': common.wstr(t), 'href': common.wstr(h), 'rel': common.wstr(r)}
@@ -549,17 +553,15 @@ def body_matches(mbody, body):
     if k == 2:
         if d[0] == 0:
             return body == bytes(d[1]), 'raw data'
-        exp = dict_of_errdict(d[1])
-        try:
-            if d[0] == 1:
-                return json.loads(body.decode('utf-8')) == exp, 'json error body'
-            got = xml_to_dict(body)
-            # XML cannot distinguish '' from absent text, and normalises \r\n; compare modulo that
-            norm = lambda s: s.replace('\r\n', '\n').replace('\r', '\n') if isinstance(s, str) else s
-            exp2 = {kk: ({a: norm(b) for a, b in v.items()} if isinstance(v, dict) else norm(v)) for kk, v in exp.items()}
-            return got == exp2, 'xml error body'
-        except Exception as e:  # undecodable body
-            return False, 'undecodable error body: %r' % e
+        # BINDING, byte level: the body must be exactly the bytes of the proved printers
+        # (JSON: utf8(print(to_dict_jv e)), C04_error_json_body_faithful on top of coq/C12;
+        #  XML: xml_body e, C04_error_xml_body_faithful)
+        if not d[2]:
+            return False, 'the model says encoding this error body raises UnicodeEncodeError'
+        exp = bytes(d[2][0])
+        if d[0] == 1:
+            return body == exp, 'json error body: expected exactly %r' % exp[:300]
+        return body == exp, 'xml error body: expected exactly %r' % exp[:300]
     if d[0] == 0:
         exp = dict_of_errdict(d[1])
         try:
@@ -998,6 +1000,121 @@ def judge_error_sequence(ctx, q, outs):
 
 
 
+def error_text_cases(ctx, model, falcon, testing, n):
+    """HTTPErrors whose texts contain lone surrogates, control characters or CR, JSON and XML
+    negotiated, default handlers, WSGI and ASGI: the body bytes must be exactly the proved
+    printers' output; the escape predicted for a lone surrogate under JSON is the known finding;
+    the XML image is additionally read back with the model's reader and with ElementTree."""
+    import random
+    import falcon.asgi
+    cur = {}
+
+    def build(asgi):
+        if asgi:
+            class Res:
+                async def on_get(self, req, resp):
+                    raise cur['ex']
+        else:
+            class Res:
+                def on_get(self, req, resp):
+                    raise cur['ex']
+        app = (falcon.asgi.App if asgi else falcon.App)()
+        app.add_route('/', Res())
+        return app
+    apps = {0: build(False), 1: build(True)}
+    cases, metas = [], []
+    texts = SURR_TEXTS + TEXTS
+    for k in range(n):
+        rng = random.Random(ctx.rng.getrandbits(40))
+        init_known(falcon)
+        surrogate = rng.random() < 0.4
+        pick = lambda p: None if rng.random() < p else rng.choice(SURR_TEXTS if (surrogate and rng.random() < 0.5) else texts)
+        kw = {'title': pick(0.3), 'description': pick(0.4), 'href': rnd_opt(rng, HREFS, 0.6), 'href_text': pick(0.6),
+              'code': rnd_opt(rng, [0, 7, -3, 'E42', '', 'c<&>'] + (SURR_TEXTS[:1] if surrogate else []), 0.5)}
+        ex = falcon.HTTPError(rng.choice(STATUSES), **kw)
+        asgi = rng.randint(0, 1)
+        accept = rng.choice([None, 'application/json', 'application/xml', 'text/xml', 'application/vnd.q+xml, text/csv'])
+        headers = {} if accept is None else {'Accept': accept}
+        cur['ex'] = ex
+        obs = call_app(testing, apps[asgi], asgi, headers=headers)
+        ncfg = negotiation_inputs(falcon, testing, apps[asgi].resp_options, True, headers)
+        cases.append([0, True, [], [], ncfg, [[], []],
+                      wire_writes({'status': None, 'text': None, 'data': None, 'media': None, 'headers': []}),
+                      [wire_exc(falcon, ex)]])
+        metas.append((kw, asgi, accept, obs, ex))
+    outs = model.run_many(cases)
+    xml_jobs = []
+    for (kw, asgi, accept, obs, ex), m in zip(metas, outs):
+        ctx.count('error-texts')
+        ctx.note_case(('errtext', repr(kw), asgi, accept), True)
+        detail = {'error_kwargs': {k: (v if not isinstance(v, str) else v.encode('unicode_escape').decode()) for k, v in kw.items()},
+                  'asgi': asgi, 'accept': accept,
+                  'impl': {k: (v.decode('latin-1') if isinstance(v, bytes) else v) for k, v in obs.items()}}
+        mres = m[1]
+        if mres[0] == 0 and obs['escaped'] == 'UnicodeEncodeError':
+            # predicted by the model (C04_error_json_surrogate_fails): known finding
+            ctx.violation('error-text-surrogate-escapes',
+                          dict(detail, finding='an HTTPError whose text holds a lone surrogate: to_json() ends in '
+                                               'str.encode() which raises inside the error handler'),
+                          key='surrogate-%d' % asgi)
+            continue
+        diffs = response_diffs(mres, obs)
+        if diffs:
+            ctx.violation('error-response-differs', dict(detail, diffs=diffs, model=repr(m)[:2000]),
+                          key='errtext-' + diffs[0].split(':')[0])
+            continue
+        if mres[0] == 1 and mres[3][0] == 2 and mres[3][1][0] == 2:
+            xml_jobs.append((detail, obs['body'], ex))
+    # XML: the model's reader and a real XML parser on the real bytes
+    reads = model.run_many([[4, b.decode('utf-8', 'surrogatepass') if b'&#' not in b else b.decode('utf-8')]
+                            for _, b, _ in xml_jobs])
+    for (detail, body, ex), rd in zip(xml_jobs, reads):
+        exp = ex.to_dict()
+        want = {'title': exp['title']}
+        if 'description' in exp:
+            want['description'] = exp['description']
+        if 'code' in exp:
+            want['code'] = str(exp['code'])
+        if 'link' in exp:
+            want['link'] = exp['link']
+        texts_used = [want['title'], want.get('description', ''), want.get('code', '')] + list(want.get('link', {}).values())
+        has_surr = any(0xD800 <= ord(c) <= 0xDFFF for t in texts_used for c in t)
+        if not has_surr:
+            got = None
+            if rd[0] == 1:
+                got = {'title': common.wstr(rd[1])}
+                if rd[2]:
+                    got['description'] = common.wstr(rd[2][0])
+                if rd[3]:
+                    got['code'] = common.wstr(rd[3][0])
+                if rd[4]:
+                    t, h, r = rd[4][0]
+                    got['link'] = {'text': common.wstr(t), 'href': common.wstr(h), 'rel': common.wstr(r)}
+            if got != want:
+                ctx.violation('error-response-differs', dict(detail, what='the proved XML reader does not recover the '
+                              'fields from the real body', read=repr(got), fields=repr(want)), key='xml-reader')
+                continue
+        # a conforming XML parser
+        bad = has_surr or any((ord(c) < 32 and c not in '\t\n') or c == '\r' for t in texts_used for c in t)
+        try:
+            root = et.fromstring(body.decode('utf-8'))
+            parsed = {}
+            for ch in root:
+                parsed[ch.tag] = {c.tag: (c.text or '') for c in ch} if ch.tag == 'link' else (ch.text or '')
+            faithful = root.tag == 'error' and parsed == want
+        except Exception:
+            parsed, faithful = None, False
+        if not faithful:
+            if bad:
+                ctx.violation('xml-error-body-unfaithful',
+                              dict(detail, finding='ElementTree writes control characters / CR / lone surrogates '
+                                                   'unescaped or as &#N;: a conforming XML parser rejects or alters the text',
+                                   parsed=repr(parsed)), key='xml-unfaithful')
+            else:
+                ctx.violation('error-response-differs', dict(detail, what='xml.etree does not read the fields back from '
+                              'the XML error body', parsed=repr(parsed), fields=repr(want)), key='xml-et')
+
+
 def registry_cases(ctx, model, falcon, n):
     """handler selection alone: _find_error_handler vs the model's dict and the history spec"""
     import random
@@ -1071,6 +1188,7 @@ def main(ctx):
         ctx.sample({'scenario': describe(falcon, sc), 'asgi': asgi,
                     'impl': {k: (v.decode('latin-1') if isinstance(v, bytes) else v) for k, v in obs.items()}})
     registry_cases(ctx, model, falcon, 3000 if quick else 40000)
+    error_text_cases(ctx, model, falcon, testing, 1500 if quick else 15000)
     run_sessions(ctx, model, falcon, testing,
                  [(ctx.rng.getrandbits(40), ctx.rng.random() < 0.5) for _ in range(1500 if quick else 6000)])
     run_error_sequences(ctx, model, falcon, testing,
@@ -1091,6 +1209,8 @@ def replay(ctx, obj):
         check_scenarios(ctx, model, falcon, testing, [obj], None)
         ctx.note_case('replay-' + repr(sorted(obj.items())), True)
         return
+    if 'error_kwargs' in obj:
+        return main(ctx)
     if 'session_seed' in obj:
         run_sessions(ctx, model, falcon, testing, [(obj['session_seed'], bool(obj.get('asgi')))])
         ctx.note_case('replay-session', True)
